@@ -1,8 +1,168 @@
-(* C23 placeholder while the tie is brought up; replaced below *)
-From BT Require Import Latency.LatencyModel Latency.LatencySpec.
-From BT Require gen.GenLatency.
+(* C23  Peripheral latency skips only permitted events.  Statements only; proofs in Latency/LatencyProofs.v.
+   Model: Latency/LatencyModel.v (peripheral_latency.hpp + the delta_time operators),
+   specification monitor: Latency/LatencySpec.v. *)
+From Coq Require Import List NArith ZArith Bool.
+Import ListNotations.
+From BT Require Import Latency.LatencyModel Latency.LatencySpec Latency.LatencyProofs.
 Local Open Scope N_scope.
+
+(* ---- the whole property as acceptance by the executable specification monitor ----
+   Full statement: for every legal configuration (single feature set or configuration set) and every
+   history of reset / plan / timeout / reschedule-on-pending-data / raw move / configuration change
+   calls with ANY arguments (every 16 bit latency, every interval, every event flag combination,
+   every pending instant, every radio answer) the monitor finds no violation: skip range, listen
+   conditions, counter and channel in step, pull-back range, instants, time arithmetic, no assert
+   inside the callers' preconditions. *)
+Definition C23_latency_full : Prop := accepts_all_latencies.
+
+(* It is FALSE at exactly one point of the argument type's range: latency 65535. The skip is computed
+   in a std::uint16_t, 65535 + 1 wraps to 0 and the "next" event is the same event again (skip 0,
+   time 0). link_layer.hpp only passes latencies <= 499 (check_timing_paremeters), so this is a
+   boundary of the unit, recorded in known_findings.d/C23.json and corpus/C23/latency_65535.trace. *)
+Theorem C23_latency_refuted : ~ C23_latency_full.
+Proof. exact accepts_all_latencies_refuted. Qed.
+Print Assumptions C23_latency_refuted.
+
+Theorem C23_latency_65535_skips_nothing :
+  monitor (cfg_single []) (run (cfg_single []) (init (cfg_single [])) [Plan 65535 no_events 7500 false 0])
+  = Some (0%nat, t_skip_range).
+Proof. exact skip_zero_witness. Qed.
+
+(* What holds: everything else. Any option lists (a superset of the 33 legal feature sets; a set needs
+   one member), any history of any length, any arguments, latency arguments other than 65535 (mod 2^16). *)
+Theorem C23_latency_partial :
+  forall (c : cfg) (ops : list op),
+    wf_cfg c -> Forall op_ok ops -> monitor c (run c (init c) ops) = None.
+Proof. exact monitor_accepts. Qed.
+Print Assumptions C23_latency_partial.
+
+Theorem C23_legal_configurations_are_covered : forall c, legal c = true -> wf_cfg c.
+Proof. exact legal_wf. Qed.
+
+(* ---- the clauses as direct statements about the planning function ---- *)
+(* planned skip s: 1 <= s <= latency + 1, in every state, for every feature set, all flags, all instants *)
+Theorem C23_skip_range :
+  forall c s lat ev pend inst, lat < two16 - 1 -> 1 <= plan_skip c s lat ev pend inst <= lat + 1.
+Proof. exact plan_skip_range. Qed.
+Print Assumptions C23_skip_range.
+
+(* an enabled listen condition held, listen_always, or an error occurred: s = 1 *)
+Theorem C23_listen_condition :
+  forall c s lat ev pend inst,
+    (is_set c = true -> (cur s < length (confs c))%nat) ->
+    must_listen c (cur s) ev = true -> plan_skip c s lat ev pend inst = 1.
+Proof. exact must_listen_skip_one. Qed.
+Print Assumptions C23_listen_condition.
+
+(* a pending instant is none of the skipped events *)
+Theorem C23_instant_never_skipped :
+  forall c s lat ev inst, counter s < two16 -> inst < two16 ->
+    forall j, 1 <= j < plan_skip c s lat ev true inst -> (counter s + j) mod two16 <> inst.
+Proof. exact instant_never_skipped. Qed.
+Print Assumptions C23_instant_never_skipped.
+
+(* unbounded, no hypothesis: event counter and channel index are the (unwrapped) number of the planned
+   event mod 2^16 and mod 37 after any history - plan (+s), timeout (+1), pull-back (-m), raw move *)
+Theorem C23_counter_and_channel_in_step :
+  forall c ops,
+    let s := final c (init c) ops in
+    let e := events_passed c (init c) 0 ops in
+    dead s = false -> (Z.of_N (counter s) = e mod 65536 /\ Z.of_N (chan s) = e mod 37)%Z.
+Proof. exact counter_channel_track_events. Qed.
+Print Assumptions C23_counter_and_channel_in_step.
+
+(* the link layer's planning calls never run into an assert *)
+Theorem C23_plan_does_not_assert :
+  forall c s lat ev iv pend inst,
+    dead s = false -> lat < two16 - 1 -> iv < two32 -> (lat + 1) * iv < two32 ->
+    dead (fst (step c s (Plan lat ev iv pend inst))) = false.
+Proof. exact plan_no_fault. Qed.
+Print Assumptions C23_plan_does_not_assert.
+
+(* ---- non-vacuity ---- *)
+Definition some_events : events := mke false true false false false false.   (* last received not empty *)
+
+(* the hypotheses are met by the default configuration and a history with latency 4 / 499, a listen
+   condition, an instant inside the skip, a timeout, a pull-back and the counter wrap *)
+Example C23_partial_nonvacuous :
+  let ops := [Plan 4 no_events 7500 false 0; Plan 4 some_events 7500 false 0; Plan 499 no_events 7500 true 9;
+              Tmo 7500; Plan 4 no_events 7500 false 0; Resched true 20000 7500; Move (-499) 0; Move (-1) 0;
+              Plan 499 no_events 4000000 true 3; Reset; Plan 65534 no_events 2 false 0; Plan 4 no_events 7500 false 0] in
+  wf_cfg cfg_default /\ Forall op_ok ops /\
+  map snd (run cfg_default (init cfg_default) ops) =
+    [OSt None 5 5 37500 (Some 5); OSt None 6 6 7500 (Some 1); OSt None 9 9 22500 (Some 3);
+     OSt None 10 10 30000 (Some 3); OSt None 15 15 37500 (Some 5); OSt (Some true) 13 13 22500 (Some 1);
+     OSt None 65050 32 22500 (Some 1); OSt None 65049 31 22500 (Some 1); OSt None 3 3 1960000000 (Some 490);
+     OSt None 0 0 0 (Some 1); OSt None 65535 8 131070 (Some 65535); OSt None 4 13 37500 (Some 5)].
+Proof. vm_compute. repeat split; try discriminate. repeat constructor; discriminate. Qed.
+
+(* the monitor is not trivially accepting: one rejected trace per clause *)
+Example C23_monitor_rejects_skip_too_long :
+  monitor cfg_default [(Plan 4 no_events 7500 false 0, OSt None 6 6 45000 (Some 6))] = Some (0%nat, t_skip_range).
+Proof. vm_compute. reflexivity. Qed.
+Example C23_monitor_rejects_ignored_listen_condition :
+  monitor cfg_default [(Plan 4 some_events 7500 false 0, OSt None 5 5 37500 (Some 5))] = Some (0%nat, t_listen_condition).
+Proof. vm_compute. reflexivity. Qed.
+Example C23_monitor_rejects_channel_out_of_step :
+  monitor cfg_default [(Plan 4 no_events 7500 false 0, OSt None 5 1 37500 (Some 5))] = Some (0%nat, t_in_step).
+Proof. vm_compute. reflexivity. Qed.
+Example C23_monitor_rejects_skipped_instant :
+  monitor cfg_default [(Plan 4 no_events 7500 true 3, OSt None 5 5 37500 (Some 5))] = Some (0%nat, t_instant_skipped).
+Proof. vm_compute. reflexivity. Qed.
+Example C23_monitor_rejects_pull_back_past_the_last_event :
+  monitor cfg_default [(Plan 4 no_events 7500 false 0, OSt None 5 5 37500 (Some 5));
+                       (Resched true 0 7500, OSt (Some true) 0 0 0 (Some 1))] = Some (1%nat, t_moveback_range).
+Proof. vm_compute. reflexivity. Qed.
+Example C23_monitor_rejects_pull_back_past_a_timeout :
+  monitor cfg_default [(Plan 4 no_events 7500 false 0, OSt None 5 5 37500 (Some 5)); (Tmo 7500, OSt None 6 6 45000 (Some 5));
+                       (Resched true 40000 7500, OSt (Some true) 5 5 37500 (Some 1))] = Some (2%nat, t_moveback_range).
+Proof. vm_compute. reflexivity. Qed.
+Example C23_monitor_rejects_channel_not_pulled_back :
+  monitor cfg_default [(Plan 4 no_events 7500 false 0, OSt None 5 5 37500 (Some 5));
+                       (Resched true 0 7500, OSt (Some true) 1 5 7500 (Some 1))] = Some (1%nat, t_in_step).
+Proof. vm_compute. reflexivity. Qed.
+Example C23_monitor_rejects_wrong_time :
+  monitor cfg_default [(Plan 4 no_events 7500 false 0, OSt None 5 5 30000 (Some 5))] = Some (0%nat, t_time_in_step).
+Proof. vm_compute. reflexivity. Qed.
+Example C23_monitor_rejects_assert_inside_the_contract :
+  monitor cfg_default [(Plan 4 no_events 7500 false 0, OFault)] = Some (0%nat, t_fault).
+Proof. vm_compute. reflexivity. Qed.
+
+(* last_latency_ is stale after timeout planning: harmless with a radio that reports the time since the
+   anchor, visible with one that reports less (both traces replayed in corpus/C23) *)
+Example C23_stale_last_latency_needs_the_radio_contract :
+  map snd (run cfg_default (init cfg_default) [Plan 4 no_events 7500 false 0; Tmo 7500; Resched true 0 7500])
+    = [OSt None 5 5 37500 (Some 5); OSt None 6 6 45000 (Some 5); OSt (Some true) 2 2 15000 (Some 1)] /\
+  map snd (run cfg_default (init cfg_default) [Plan 4 no_events 7500 false 0; Tmo 7500; Resched true 37600 7500])
+    = [OSt None 5 5 37500 (Some 5); OSt None 6 6 45000 (Some 5); OSt (Some true) 6 6 45000 (Some 1)].
+Proof. split; [exact stale_last_latency_witness | exact conforming_radio_keeps_plan]. Qed.
+
+(* ---- the legal feature sets and the constants, regenerated from the sources on every run ---- *)
+Example C23_33_of_64_feature_sets_are_legal :
+  length (sublists [0; 1; 2; 3; 4; 5]) = 64%nat /\
+  length (filter (fun o => legal (cfg_single o)) (sublists [0; 1; 2; 3; 4; 5])) = 33%nat.
+Proof. exact legal_feature_sets. Qed.
+
+From BT Require gen.GenLatency.
 Example C23_constants_are_the_sources :
-  GenLatency.maximum_link_layer_peripheral_latency = max_latency /\ GenLatency.max_number_of_data_channels = num_channels /\
-  GenLatency.move_offset = move_offset.
+  GenLatency.maximum_link_layer_peripheral_latency = max_latency /\
+  GenLatency.max_number_of_data_channels = num_channels /\
+  GenLatency.move_offset = move_offset /\
+  GenLatency.number_of_options = 6 /\
+  GenLatency.opt_listen_if_pending_transmit_data = o_pending /\
+  GenLatency.opt_listen_if_unacknowledged_data = o_unack /\
+  GenLatency.opt_listen_if_last_received_not_empty = o_rx_not_empty /\
+  GenLatency.opt_listen_if_last_transmitted_not_empty = o_tx_not_empty /\
+  GenLatency.opt_listen_if_last_received_had_more_data = o_more_data /\
+  GenLatency.opt_listen_always = o_always.
+Proof. repeat split; reflexivity. Qed.
+
+Example C23_named_configurations_are_legal :
+  GenLatency.cfg_peripheral_latency_ignored = [o_always] /\
+  GenLatency.cfg_peripheral_latency_strict = [o_pending; o_more_data] /\
+  GenLatency.cfg_peripheral_latency_strict_plus = [o_rx_not_empty; o_more_data] /\
+  GenLatency.cfg_periperal_latency_default_configuration = [o_pending; o_unack; o_rx_not_empty; o_tx_not_empty; o_more_data] /\
+  forallb (fun o => legal (cfg_single o))
+    [GenLatency.cfg_peripheral_latency_ignored; GenLatency.cfg_peripheral_latency_strict;
+     GenLatency.cfg_peripheral_latency_strict_plus; GenLatency.cfg_periperal_latency_default_configuration] = true.
 Proof. repeat split; reflexivity. Qed.
